@@ -78,6 +78,12 @@ def analyse_generator(ctx, prover, alt, samplers):
         info['range'] = canon(strip(a[1]))
         el = eng.apply(a[2], (T('index', strip(a[1])),))
         info['site'] = (a[2][1], tuple(a[2][3]) if len(a[2].args) > 2 else ())
+    elif a.tag == 'repeatv' and len(a.args) >= 3 and a[3] == 'each-call':
+        # `repeat_with(|| draw()).take(n).collect()`: n elements, each from its own call of the closure
+        info['per_element'] = True
+        info['range'] = canon(T('range', T('const', 0), strip(a[2]) if hasattr(a[2], 'tag') else T('const', a[2])))
+        el = a[1]
+        info['site'] = 'repeat_with'
     elif alt.tag == 'mut' and a.tag == 'call' and a[1].split('::')[-1] in ('with_capacity', 'new'):
         pushes = [e for e in alt[2] if e.tag == 'ev' and e[2].endswith('::push')]
         fills = [e for e in alt[2] if e.tag == 'ev' and e[2].split('::')[-1] in ('extend', 'extend_from_slice', 'append', 'resize', 'insert')]
